@@ -113,6 +113,13 @@ def cluster_scripts():
         # `finally`): others try for the role in between -- fresh handles and a handle loaded before
         {"id": "k12", "scripts": [H("n1", "loadp", "update", "complete", "demote"), H("n2", "loadp", "update", "demote"), H("n3", "load", "promote", "demote")]},
         {"id": "k13", "scripts": [H("n1", "loadp", "complete", "update", "demote"), H("n2", "loadp", "demote"), H("n1", "loadp", "cancel", "demote")]},
+        # `submit-jobs --force` on the directory of a submission whose processes are still alive: their handles are ahead of the
+        # new files' versions, and everything they do afterwards must be rejected like any other stale write.  (The plans keep the
+        # new incarnation's versions below the old handles': the counters restart at 1, so an old handle whose version happens
+        # to *equal* the new files' is not recognisable as stale by version numbers -- ClusterStore shows that too; re-creation is
+        # not among the operations C10 quantifies over, see DESIGN 0.5.)
+        {"id": "k14", "modern": True, "scripts": [H("n1", "loadp", "update", "cancel", "demote"), H("n2", "recreate", "demote")]},
+        {"id": "k15", "modern": True, "scripts": [H("n1", "loadp", "cancel", "update", "update"), H("n1", "recreate", "demote")]},
         {"id": "k9", "modern": True, "scripts": [H("n1", "load", "cancel", "promote"), H("n1", "loadp", "demote!1"), H("n1", "loadp", "jsonly!1"), H("n1", "load", "jsonly")]},
     ]
 
@@ -140,7 +147,7 @@ def run_cluster(plan, seed=None, path=None, debug=False):
         while p.alive:
             w.do(("step", p.pid))
         procs = [w.spawn(kind="api", module="harness.drivers.cluster", func="handle", host=s["host"],
-                         args={"out": out, "ops": s["ops"]}, label="handle") for s in plan["scripts"]]
+                         args={"out": out, "ops": s["ops"], "cfgfile": cfgfile}, label="handle") for s in plan["scripts"]]
         sync = len(w.trace)
         if path is not None:
             for k, lbl in enumerate(path):
@@ -166,6 +173,12 @@ def run_cluster(plan, seed=None, path=None, debug=False):
                     if q.alive and q.req["op"] == "lock_blocked" and w._step_enabled(q):
                         w.do(("step", q.pid))        # the lock library breaks the marker,
                         w.do(("step", q.pid))        # the acquisition is retried and the operation proceeds
+                    if lbl[0] == "Recreate":
+                        # Cluster.create writes through several lock holds: run the operation to its end
+                        guard = 0
+                        while q.alive and getattr(q, "cop", None) is not None and q.cop["op"] == "recreate" and guard < 12:
+                            w.do(("step", q.pid))
+                            guard += 1
                     if lbl[0] == "Crash" and q.alive:
                         diverged = {"step": k, "label": lbl, "why": "model says the operation dies part-way, the process lives"}
                         break
@@ -191,6 +204,8 @@ def compare_cops(model_events, tr):
     model = [[e["pid"], e["op"], e["hcver"] if e["loaded"] else -1, e["hjver"] if e["loaded"] else -1, e["dcver"], e["djver"],
               e["ddcver"], e["ddjver"], e["exc"], e["changed"], e["ok"], e["before"]] for e in model_events if e["e"] == "cop"]
     for i, (a, b) in enumerate(zip(model, real)):
+        if a[1] == "recreate" and b[1] == "recreate":
+            a, b = a[:2] + a[8:9] + a[10:], b[:2] + b[8:9] + b[10:]      # what was on disk before is irrelevant: it is removed
         if a != b:
             return {"index": i, "model": a, "real": b}
     if len(model) != len(real):
